@@ -7,5 +7,8 @@ CONSTANTS
  DevVolOverwritten = TRUE
  DevUserRegen = FALSE
  DevRecentre = FALSE
+ DevKeySites = FALSE
+ DevProcForgets = FALSE
+ LargeN = 16
 INVARIANT UserVolumeWins
 CHECK_DEADLOCK FALSE
